@@ -99,6 +99,15 @@ def check_sample(d, obj, cfg, n, bs, rows, seed):
     if not torch.isfinite(s).all():
         out.append((cell, "non-finite samples", "sample returned non-finite values"))
         return out, {}
+    # all injected noise items differ, so for a continuous distribution all draws of one block differ: identical draws mean a
+    # batch (or a work buffer) was handed out more than once
+    if not d.binary and n >= 2 and tg.items:
+        blocks = s.reshape(rows if ctx is not None else 1, n, -1)
+        for i in range(blocks.shape[0]):
+            dup = [(a, b_) for a in range(n) for b_ in range(a + 1, n) if torch.equal(blocks[i, a], blocks[i, b_])]
+            if dup:
+                out.append((cell, "identical draws in one call", "sample(%d, context=%s, batch_size=%s): draws %d and %d of block %d are identical although every injected noise item is different" % (n, None if ctx is None else "%d rows" % rows, bs, dup[0][0], dup[0][1], i)))
+                return out, {}
     # trace every draw back to a distinct injected noise item under its own context row
     flat = s.reshape(-1, *es)
     cflat = None if ctx is None else ctx.repeat_interleave(n, dim=0)
